@@ -15,6 +15,7 @@ def TblSet.toTables (t : TblSet) : Tables :=
 structure TmplSt where
   sets : Std.HashMap String TblSet := {}     -- persists across `reset`
   cur : TblSet := {}
+  haveTables : Bool := false                  -- a `T.use` has selected tables since the last reset
   tmpl : Option Template := none
   subsets : Array Subset := #[]
   invalid : Bool := false
@@ -70,7 +71,7 @@ def stepTemplate (st : TmplSt) (toks : List String) : Option (TmplSt × String) 
     | _, _ => some (st, "bad-op")
   | ["T.use", name] =>
     match st.sets[name]? with
-    | some ts => some ({ st with cur := ts }, "ok")
+    | some ts => some ({ st with cur := ts, haveTables := true }, "ok")
     | none => some (st, "fail")
   | "tm.new" :: ed :: ds =>
     match ed.toNat?, ds.mapM (·.toNat?) with
